@@ -132,7 +132,7 @@ static const int BREQ_SLOT = MAXREQ; // the single request B -> A is reported as
 static int g_timeout = 2, g_timeout_arg = 2, g_adv_steps = 1;
 static unsigned g_beh_mask = 0x7f;   // request behaviours on the menu (bit per Beh)
 static bool g_reinit = true, g_breq = true, g_half = false, g_disc = false;
-static bool g_clean_in_timeout = false;   // switch C14_CLEAN_IN_TIMEOUT=1 (default off: the unchanged library fails it): CLEAN also acts in a TIMEOUT callback
+static bool g_clean_in_timeout = false;   // switch C14_CLEAN_IN_TIMEOUT=1 (DEFAULT OFF: the unchanged library fails it, see the report): a CLEAN request's TIMEOUT callback runs Rpc::cleanup()
 
 // ---- reference model ----------------------------------------------------------------------------------------
 struct Ev { int req; int errcode; int val; };      // callback of request #req with (errcode, result == {"r":val} or null if val<0)
@@ -150,8 +150,9 @@ struct Model {
   void end_session() { for (auto &x : r) { x.pending = false; x.remaining = 0; } reinit_in_op = true; }   // nothing of it may complete any more; the ring is gone
   void complete(int i, int code, int val, std::vector<Ev> &exp, std::vector<int> &chain) {
     r[i].pending = false; exp.push_back(Ev{i, code, val});
-    if (chains(r[i].beh)) chain.push_back(i);
-    if (r[i].beh == CLEAN && (code != ErrorCode::kRequestTimeout || g_clean_in_timeout)) { end_session(); sessions++; } }
+    if (chains(r[i].beh) && (int)r.size() < MAXREQ && up && !killed) { std::vector<int> none; issue(PLAIN, exp, none); }   // the follow-up is issued from inside the callback (PLAIN: never completes synchronously)
+    if (r[i].beh == CLEAN && code != ErrorCode::kRequestTimeout) { end_session(); sessions++; }
+    else if (r[i].beh == CLEAN && g_clean_in_timeout) { end_session(); up = false; down_done = true; } }   // (switch) a TIMEOUT callback that tears the Rpc down: cleanup() only
   void issue(int beh, std::vector<Ev> &exp, std::vector<int> &chain) {
     if (heldA() == 0) tickA = 2;
     r.push_back(MReq{beh, true, tmoA, connected}); int i = (int)r.size() - 1;
@@ -160,8 +161,7 @@ struct Model {
     else if (beh == SYNC_ERR) complete(i, 100 + i, -1, exp, chain);
     else if (beh == NO_METHOD) complete(i, ErrorCode::kMethodNotFound, -1, exp, chain);
   }
-  // follow-up requests are PLAIN (never complete synchronously), so one round settles the chain
-  void settle(std::vector<Ev> &exp, std::vector<int> &chain) { std::vector<int> none; for (size_t c = 0; c < chain.size(); c++) if ((int)r.size() < MAXREQ && up && !killed) issue(PLAIN, exp, none); chain.clear(); }
+  void settle(std::vector<Ev> &, std::vector<int> &) {}
   void half_step(std::vector<Ev> &exp) {
     std::vector<int> chain;
     if (heldA() > 0 && --tickA == 0) {
@@ -210,6 +210,7 @@ struct World {
   int peer_ids[MAXREQ];                 // id under which peer B's service received request #i (-1: not received)
   int wire_ids[MAXREQ];                 // id A used on the wire for request #i, read from the bytes A's proto sent (-1: nothing was sent)
   int a_wire_last = 0, a_wire_max = 0;  // newest / largest request id seen on A's wire
+  int hidden = 0;                       // requests issued while A's proto had no send callback (their ids were never seen)
   int a_peer_id = -1;                   // id under which A's service received B's request
   bool b_issued = false, a_up = true, a_connected = true;
   int tmo_arg_a;                        // timeout_sec argument of A's current session (0 = default)
@@ -249,7 +250,8 @@ struct World {
     auto cb = [this, i](int errcode, const Json &res) {
       events.push_back(Ev{i, errcode, result_val(res)});
       if (chains(beh[i])) request(PLAIN);                              // a completion that issues a follow-up request
-      if (beh[i] == CLEAN && (errcode != ErrorCode::kRequestTimeout || g_clean_in_timeout)) { a->cleanup(); init_a(); }
+      if (beh[i] == CLEAN && errcode != ErrorCode::kRequestTimeout) { a->cleanup(); init_a(); }
+      else if (beh[i] == CLEAN && g_clean_in_timeout) { a->cleanup(); a_up = false; }
     };
     bool was_connected = a_connected; a_wire_last = 0;
     if (b_ == NO_METHOD) a->request("nosuch", params, cb);
@@ -257,7 +259,7 @@ struct World {
       if (was_connected && notes != n0 + 2 && viol.empty()) viol = "notification-not-delivered-to-peer-exactly-once";
       a->request("q", cb); }
     else a->request("m", params, cb);
-    if (!was_connected) { if (viol.empty() && (peer_ids[i] >= 0 || a_wire_last)) viol = "request-left-a-proto-that-has-no-send-callback"; return; }
+    if (!was_connected) { hidden++; if (viol.empty() && (peer_ids[i] >= 0 || a_wire_last)) viol = "request-left-a-proto-that-has-no-send-callback"; return; }
     if (b_ == NO_METHOD) wire_ids[i] = a_wire_last ? a_wire_last : -1;
     if (viol.empty() && b_ != NO_METHOD && peer_ids[i] < 0) viol = "request-not-delivered-to-peer";
     if (viol.empty() && b_ == NO_METHOD && (peer_ids[i] >= 0 || wire_ids[i] < 0)) viol = "peer-received-a-different-request-than-sent";
@@ -270,7 +272,7 @@ struct World {
       case RSP: if (o.a < issued) { int id = peer_ids[o.a] >= 0 ? peer_ids[o.a] : wire_ids[o.a]; if (id <= 0) break;
           if (o.b == 0) { Json res = Json::object(); res["r"] = o.a; b->respond(id, res); } else b->respond(id, 100 + o.a); } break;
       case UNK: { Json res = Json::object(); res["r"] = 9;           // responses nobody asked for, one after the other
-        b->respond(a_wire_max + 1, res);                           // an id that has not been issued yet
+        b->respond(a_wire_max + hidden + 1, res);                  // an id that has not been issued yet (requests that never reached the wire took ids too)
         b->respond(1000, 55);                                      // error reply with an id never issued
         pb->sendResult(0, res); pb->sendError(0, 55);              // id 0
         pb->sendResult(-1, res);                                   // a negative id
